@@ -3,11 +3,13 @@ use crate::Check;
 pub mod c02;
 pub mod c05;
 pub mod c11;
+pub mod c15;
 
 pub fn get(id: &str) -> Option<Box<dyn Check>> {
     match id {
         "C02" => Some(Box::new(c02::C02)),
         "C11" => Some(Box::new(c11::C11)),
+        "C15" => Some(Box::new(c15::C15)),
         "C05" => Some(Box::new(c05::C05)),
         _ => None,
     }
